@@ -331,7 +331,7 @@ def run(tier, seed):
     # G1: grid of boundary instants x offsets x writers x rotating forms
     durs_rot = duration_texts(secs, rng, per_duration=None if thorough else 4)
     years = YEARS + ([0, -43] if thorough else [])
-    grid, r1 = gen("c14grid", "grid", seed, k=1 if thorough else 9, forms_per=3 if thorough else 1, years=years, days=DAYS, times=TIMES,
+    grid, r1 = gen("c14grid", "grid", seed, k=1 if thorough else 7, forms_per=3 if thorough else 1, years=years, days=DAYS, times=TIMES,
                    offsets=OFFSETS, writers=WRITERS, durs=durs_rot, anchors=ANCHORS, convoffs=CONV_OFFSETS, zones=ZONES,
                    workers=8 if thorough else 4, timeout=2400, coverage=True)
     vacuity_gate(r1, "grid")
